@@ -12,7 +12,7 @@ def run(prop, tier, seed, t0):
     res = core.Result()
     na, nt = (40000, 3000) if thorough else (900, 48)
     R.run_sharded(res, exes[0], [], na, label='h_c18/asan', variant='asan')
-    env = {'TSAN_OPTIONS': 'halt_on_error=1:abort_on_error=1:report_thread_leaks=0:report_signal_unsafe=0'}
+    env = {'TSAN_OPTIONS': 'allocator_may_return_null=1:halt_on_error=1:abort_on_error=1:report_thread_leaks=0:report_signal_unsafe=0'}
     R.run_sharded(res, exes[1], ['threads=3'], nt, env=env, label='h_c18/tsan', variant='tsan', first=na, wall=1200 if thorough else 600)
     cov = {
         'evaluations': res.stat('trainings'), 'distinct_nontrivial': res.ncells('outcome'),
